@@ -523,7 +523,18 @@ def r11_11(ctx):
             idx = items.index("self.console")
             inner_lock = any(isinstance(y, ast.With) and y is not x and any(norm(expand_alias(i.context_expr, al)) == "self._lock" for i in y.items) for y in ast.walk(x))
             if "self._lock" not in items and not inner_lock and lock not in get_cg(ctx)[1].held_lex(f, x):
-                continue  # no display lock involved here at all (the branch for files / dumb terminals after stop)
+                # no display lock involved here at all: fine only in the branch for files / dumb terminals after stop(), where the
+                # display is known to be finished (`not self._started`) - no refresh thread, nothing to interleave with
+                from ..yieldpaths import canon_test as _ct
+                gg = cfgmod.build(f.node)
+                finished = False
+                for nid in gg.nodes_of(x):
+                    for t, v in gg.branch_facts(nid):
+                        for a, tv in _ct(t, v):
+                            if a == "self._started" and tv is False:
+                                finished = True
+                if finished:
+                    continue
             n += 1
             # refresh() is public API: only what the method itself acquires counts, not what its internal callers happen to hold
             cg_, locks_ = get_cg(ctx)
